@@ -18,6 +18,8 @@ func init() {
 const pkgPaths = "core/validators/paths"
 
 func checkC15(c *Ctx, r *Report) {
+	defer checkContainerFields(c, r, "C15.e")
+	defer checkProcessWideState(c, r, "C15.e")
 	w := c.W
 	r.NotDecided = append(r.NotDecided, "per-entry completeness and permutation invariance of the trie walk over all route lists (an inductive argument about the algorithm)", "value semantics of normalizePath/splitSegments/isParamSegment on every string")
 	const fc = pkgPaths + ".FindConflicts"
